@@ -125,6 +125,16 @@ Theorem other_clock_resolves :
   forall (slots : list (slot Q)) (k c : nat) (tk : Z) (fr : Q),
     c <> k -> when_to_start (info_for slots k) c tk fr = when_to_start (info_of slots) c tk fr.
 Proof. exact other_id_real. Qed.
+(** [Clocks::update] is [for_each]: clock [k] is updated against the storage with its own slot
+    replaced by the dummy (every number type) *)
+Theorem clock_updated_against_own_dummy :
+  forall (T : Type) (NT : Num T) (ND : NumDur T) (powf : T -> T -> T)
+         (fuel : nat) (k : nat) (todo : list nat) (slots : list (slot T)) (s : slot T) (dt : T),
+    nth_error slots k = Some s -> sl_life s = Live ->
+    clocks_update_from powf fuel (k :: todo) slots dt =
+      (let! c' := clock_update powf fuel (sl_clock s) dt (info_for slots k) in
+       clocks_update_from powf fuel todo (set_nth k (with_clock s c') slots) dt).
+Proof. exact @for_each_own_dummy. Qed.
 (** the witness replayed on the implementation: own time => the change never happens (8 = 2 x 4 ticks),
     other clock showing the same time => it does (29 ticks) *)
 Theorem self_reference_refuted :
